@@ -543,7 +543,7 @@ func drawOptions(t *rapid.T, log bool) (omax, minL, maxL int) {
 
 func TestLinearTicks(t *testing.T) {
 	ev.Rule(rule)
-	ev.Rapid(t, "c17-linear", 8000, 640000, func(rt *rapid.T) {
+	ev.Rapid(t, "c17-linear", 40000, 640000, func(rt *rapid.T) {
 		c := &LinCase{Base: rapid.SampledFrom([]int{0, 10, 2, 3, 5, 16}).Draw(rt, "base")}
 		width := gen.LogUniform(rt, 1e-9, 1e9, "width")
 		centre := 0.0
@@ -572,7 +572,7 @@ func TestLinearTicks(t *testing.T) {
 
 func TestLogTicks(t *testing.T) {
 	ev.Rule(rule)
-	ev.Rapid(t, "c17-log", 8000, 640000, func(rt *rapid.T) {
+	ev.Rapid(t, "c17-log", 40000, 640000, func(rt *rapid.T) {
 		c := &LogCase{Base: rapid.SampledFrom([]int{10, 2, 3, 5, 16}).Draw(rt, "base")}
 		a := gen.LogUniform(rt, 1e-100, 1e100, "a")
 		var b float64
